@@ -281,7 +281,7 @@ Proof.
     + intros x. now destruct (beq x s_rollback_on_error).
     + intros x. simpl. now destruct (beq x s_test_only).
     + reflexivity.
-  - destruct confirmed; simpl; rewrite ?pure_fail_opt; reflexivity.
+  - unfold commit_checks. destruct (confirmed || has_pid v pid); simpl; rewrite ?pure_fail_opt; reflexivity.
 Qed.
 
 Lemma body_nofail c : nofail (body_steps c) = wellformed c.
@@ -301,7 +301,7 @@ Proof.
     + intros x. now destruct (beq x s_rollback_on_error).
     + intros x. simpl. now destruct (beq x s_test_only).
     + reflexivity.
-  - destruct confirmed; simpl; rewrite ?andb_true_r; reflexivity.
+  - unfold commit_checks. destruct (confirmed || has_pid v pid); simpl; rewrite ?andb_true_r; reflexivity.
 Qed.
 
 Lemma needs_exact c : wellformed c = true ->
@@ -324,7 +324,61 @@ Proof.
     destruct (beq fmt s_f_text) eqn:T; [rewrite (fmt_text_not_url _ T); apply asserts_fail_opt|].
     destruct (beq fmt s_f_url); [|reflexivity].
     apply andb_prop in W as [U _]. rewrite U. simpl. rewrite ?asserts_fail_opt. reflexivity.
-  - (* commit *) destruct confirmed; simpl; rewrite ?asserts_fail_opt; reflexivity.
+  - (* commit *) unfold commit_checks. destruct (confirmed || has_pid v pid); simpl; rewrite ?asserts_fail_opt; reflexivity.
+Qed.
+
+(* ---------- every capability-dependent construct a request carries is among its documented needs ---------- *)
+Lemma ds_wire_need dd w k : In w (ds_wire dd) -> In k (wire_needs w) -> In k (url_need dd).
+Proof.
+  destruct dd as [loc lx|e]; simpl; [|tauto]. destruct (contains loc s_css); simpl; [|tauto].
+  intros [<-|[]] H. exact H.
+Qed.
+Lemma ods_wire_need o w k : In w (ods_wire o) -> In k (wire_needs w) -> In k (ourl_need o).
+Proof. destruct o; simpl; [apply ds_wire_need|tauto]. Qed.
+Lemma src_wire_need s w k : In w (src_wire s) -> In k (wire_needs w) -> In k (src_need s).
+Proof. destruct s; simpl; [apply ds_wire_need|tauto]. Qed.
+Lemma wd_wire_need (wd : option bytes) w k :
+  In w (match wd with None => [] | Some _ => [WWithDefaults] end) -> In k (wire_needs w) -> In k (wd_need wd).
+Proof. destruct wd; simpl; [|tauto]. intros [<-|[]] H. exact H. Qed.
+
+Lemma commit_wire_confirmed v confirmed tmo per pid w :
+  In w (commit_wire v confirmed tmo per pid) ->
+  confirmed || has_pid v pid = true /\ wire_needs w = [s_k_confirmed].
+Proof.
+  unfold commit_wire. rewrite in_app_iff. intros [H|H].
+  - destruct confirmed; [|destruct H]. split; [reflexivity|].
+    destruct H as [<-|H]; [reflexivity|]. apply in_app_or in H as [H|H].
+    + destruct tmo; [|destruct H]. destruct H as [<-|[]]. reflexivity.
+    + destruct (has_per v per); [|destruct H]. destruct H as [<-|[]]. reflexivity.
+  - destruct (has_pid v pid); [|destruct H]. destruct H as [<-|[]]. split; [apply orb_true_r|reflexivity].
+Qed.
+
+Lemma wire_in_needs c w k : In w (wire_of c) -> In k (wire_needs w) -> In k (needs c).
+Proof.
+  intros Hw Hk. destruct c; simpl in Hw |- *; rewrite ?in_app_iff in *.
+  - (* get *) eapply wd_wire_need; eauto.
+  - (* get_config *) destruct Hw as [Hw|Hw]; [left; eapply ds_wire_need; eauto|right; eapply wd_wire_need; eauto].
+  - (* edit_config *)
+    destruct Hw as [Hw|[Hw|[Hw|Hw]]].
+    + left. eapply ds_wire_need; eauto.
+    + right. left. destruct top as [t|]; [|destruct Hw]. destruct Hw as [<-|Hw]; [destruct Hk as [<-|[]]; left; reflexivity|].
+      destruct (beq t s_test_only); [|destruct Hw]. destruct Hw as [<-|[]]. right. exact Hk.
+    + right. right. left. destruct eop as [e|]; [|destruct Hw].
+      destruct (beq e s_rollback_on_error); [|destruct Hw]. destruct Hw as [<-|[]]. exact Hk.
+    + right. right. right. destruct (beq fmt s_f_url); [|destruct Hw]. destruct Hw as [<-|[]]. exact Hk.
+  - eapply ds_wire_need; eauto.
+  - destruct Hw as [Hw|Hw]; [left; eapply ds_wire_need; eauto|right; eapply src_wire_need; eauto].
+  - (* validate *) destruct Hw as [<-|Hw]; [destruct Hk as [<-|[]]; left; reflexivity|right; eapply src_wire_need; eauto].
+  - (* commit *) destruct Hw as [<-|Hw]; [destruct Hk as [<-|[]]; left; reflexivity|].
+    apply commit_wire_confirmed in Hw as [E N]. rewrite N in Hk. rewrite E. right. exact Hk.
+  - destruct Hw as [<-|[]]. exact Hk.
+  - destruct Hw as [<-|[]]. exact Hk.
+  - destruct Hw as [<-|[]]. exact Hk.
+  - destruct Hw.
+  - destruct Hw.
+  - eapply ods_wire_need; eauto.
+  - destruct Hw as [Hw|Hw]; [left|right]; eapply ods_wire_need; eauto.
+  - destruct Hw.
 Qed.
 
 Section Statements.
@@ -448,6 +502,46 @@ Section Statements.
       apply wd_accepts_iff in Acc. destruct Acc as (cap & ms & G & M & Mem). fold d in G.
       now rewrite G, M, Mem, Ch. }
     split; [exact R|]. pose proof (c09_send_once S c) as SO. now rewrite R in SO.
+  Qed.
+
+  (* a request that went out: no argument was refused, and every documented need is advertised *)
+  Lemma sent_needs c : snd (perform S c) = Sent ->
+    wellformed c = true /\ forall k, In k (needs c) -> advertised uris k.
+  Proof.
+    intros H. unfold S, d in H. rewrite perform_outcome in H. fold d in H. fold S in H.
+    destruct (snd (run_steps S (prog c))) as [e|] eqn:R; [discriminate|].
+    assert (W : wellformed c = true).
+    { destruct (wellformed c) eqn:W; [reflexivity|]. exfalso.
+      apply (fail_stops S (prog c)); [now rewrite prog_nofail|exact R]. }
+    split; [exact W|]. intros k Hk. rewrite <- (prog_asserts c W) in Hk.
+    destruct (present d k) eqn:P; [now apply present_iff|].
+    exfalso. exact (missing_stops uris (prog c) k Hk P R).
+  Qed.
+
+  (* ... so every capability-dependent construct it carries is backed by an advertised capability *)
+  Lemma c09_wire_backed : forall c w k,
+    snd (perform S c) = Sent -> In w (wire_of c) -> In k (wire_needs w) -> advertised uris k.
+  Proof.
+    intros c w k H Hw Hk. destruct (sent_needs c H) as [_ A]. apply A. eapply wire_in_needs; eauto.
+  Qed.
+
+  (* ... and the with-defaults mode it carries is one the server lists *)
+  Lemma c09_sent_mode : forall c norm,
+    snd (perform S c) = Sent -> wd_of c = Some norm -> wd_accepts uris norm.
+  Proof.
+    intros c norm H Hwd. destruct (sent_needs c H) as [W A].
+    unfold S, d in H. rewrite perform_outcome in H. fold d in H. fold S in H.
+    rewrite (wellformed_outcome c W) in H.
+    apply forallb_present in A. fold d in A. rewrite A, Hwd in H.
+    assert (Pw : present d s_k_wd = true).
+    { rewrite forallb_forall in A. apply A. destruct c; simpl in *; try discriminate; subst;
+        rewrite ?in_app_iff; simpl; auto. }
+    unfold S, d in H. rewrite (wd_run uris norm Pw) in H. fold d in H.
+    apply wd_accepts_iff. fold d.
+    destruct (getitem d s_k_wd) as [cap| |] eqn:G; try discriminate.
+    destruct (modes_of cap) as [ms|] eqn:M; [|discriminate].
+    destruct (mem_bytes norm ms) eqn:Mem; [|discriminate].
+    exists cap, ms. auto.
   Qed.
 
   (* the advertised modes in terms of C08's specification of lookup and parameters *)
